@@ -56,6 +56,7 @@ Inductive lstmt :=
 | LSetMark (r : lref)                                 (* r->mark = mark *)
 | LSetWeightLocal                                     (* rtc.weight = bases.size() *)
 | LSwapTbLocal                                        (* rtc.transitive_bases.swap(bases) *)
+| LSetWeightTb                                        (* rtc.weight = rtc.transitive_bases.size() *)
 | LSortTbByWeight                                     (* std::sort(rtc.tb.begin(), rtc.tb.end(), [](a, b) { return a->weight > b->weight; }) *)
 | LPushDir (owner x : lref)                           (* owner.direct_bases.push_back(x) *)
 | LPushDer (owner x : lref).                          (* owner->direct_derived.push_back(x) *)
@@ -347,6 +348,10 @@ Fixpoint mk_exec (c : lstmt) (x : lenv) (s : mk_st) : option mk_st :=
                        | Some i => Some (mk_mk (m_tb s) (m_dir s) (m_der s) (m_marks s) (set_nth i (m_weight s) (length (m_local s))) (m_cmark s) (m_mark s) (m_local s))
                        | None => None
                        end
+  | LSetWeightTb => match eget RRtc x with
+                    | Some i => Some (mk_mk (m_tb s) (m_dir s) (m_der s) (m_marks s) (set_nth i (m_weight s) (length (nth i (m_tb s) []))) (m_cmark s) (m_mark s) (m_local s))
+                    | None => None
+                    end
   | LSwapTbLocal => match eget RRtc x with
                     | Some i => Some (mk_mk (set_nth i (m_tb s) (m_local s)) (m_dir s) (m_der s) (m_marks s) (m_weight s) (m_cmark s) (m_mark s) (nth i (m_tb s) []))
                     | None => None
